@@ -23,6 +23,11 @@ def run(v, tier):
         for k in range(ar):
             for a in pool[:5]:
                 t = list(base); t[k] = a; tuples.append(t)
+        if ar >= 2:       # every transposition of some tuples (an application printed with its arguments in the wrong holes collides with these)
+            for t in rng.sample(tuples, min(len(tuples), 12)):
+                for i in range(ar):
+                    for j in range(i + 1, ar):
+                        w = list(t); w[i], w[j] = w[j], w[i]; tuples.append(w)
         reqs.append({'cmd': 'render', 'label': label, 'argtuples': tuples})
     res = py_run(reqs, script='genharness.py')
     cases = [dict(r, fam='notation') for r in res]
